@@ -77,6 +77,25 @@
 //	            a constant sub-slice of the wrong width (binary.LittleEndian: of a smaller width) are
 //	            rejected
 //
+// text        (frame text family; semantics and TRUSTED library readings: Translate/GoSemText.v)
+//	            strings as byte lists: len(s), s + t, ==, s[i], s[lo:hi] / s[lo:] / s[:hi] with constant or
+//	            non-constant bounds; a[lo:hi] of a [N]byte array with non-constant bounds as the []byte
+//	            argument of a text library function. THE RUN-TIME PANICS of these operations ARE MODELLED:
+//	            a function containing one returns option (None = panic, like the `_ = b[k]` check) and
+//	            the test `if negb (go_index_ok ..) / (go_slice_ok ..) then None else ...` is printed in
+//	            front of the statement whose expressions contain the operation; such an operation in
+//	            the right operand of && / || or inside a loop is an error.
+//	            library calls: fmt.Sprintf("%0wX" / "%0wx", unsigned) (no other format), strconv.Itoa,
+//	            hex.EncodeToString, strings.ToUpper (ASCII reading) in expressions;
+//	            `v, err := strconv.ParseUint(s, const, const)` / strconv.Atoi(s) / hex.DecodeString(s)
+//	            (the pair (value, error); a variable that already exists in the scope is assigned; the
+//	            []byte result is a fresh slice), `err != nil` / `err == nil` on such a local;
+//	            `parts := strings.Split(s, "<one byte constant>")` with parts used only as len(parts) and
+//	            parts[k] (index panic modelled); `a, b := e1, e2` with all variables new;
+//	            `*f = v` through the written pointer receiver wherever it occurs (the final value of *f is
+//	            returned with the results, so an assignment on the success paths only is visible as
+//	            the unchanged parameter on the error paths).
+//
 // Every integer operation is emitted at the static type go/types reports for that expression,
 // against the operators of coq/theories/Translate/GoSem.v, every floating-point operation against
 // those of coq/theories/Translate/GoSemFloat.v (see those files' headers for the reading of Go's
